@@ -67,6 +67,7 @@ type c08ctx struct {
 	rng    *rand.Rand
 	before map[int]string
 	log    []string
+	adoptedForgery bool
 }
 
 func (c *c08ctx) note(s string) {
@@ -362,10 +363,11 @@ func runC08(cs CaseSpec) *CaseResult {
 	case "join":
 		ok = c.runJoinResponses(msgs)
 	}
-	if ok {
+	if ok && !c.adoptedForgery {
 		ok = c.liveCheck("end of batch")
 	}
-	if ok && victim.Node.GetState() == _state.Babbling {
+	victim = c.victim
+	if ok && !c.adoptedForgery && victim.Node.GetState() == _state.Babbling {
 		// the node must still be able to commit new transactions with the honest majority
 		tx := nw.NewTx(victim.Idx, 0)
 		nw.Submit(victim, tx)
@@ -534,6 +536,15 @@ func (c *c08ctx) runFastForwardResponses(msgs int) bool {
 			}
 			resp = &cp
 		}
+		if i%3 == 2 {
+			// a response that passes every check: the Byzantine validator (whom the
+			// victim knows) declares a validator set consisting of itself, signs the
+			// block itself, and the block commits to whatever hostile frame it ships
+			if fr := c.consistentForgery(); fr != nil {
+				resp = fr
+				c.res.count("hostile_FastForwardResponse_passing_all_checks", 1)
+			}
+		}
 		if resp.Block.Body.Index <= 0 {
 			// getBestFastForwardResponse only considers blocks above 0
 			resp.Block.Body.Index = 1 + g.rng.Intn(1000)
@@ -549,6 +560,15 @@ func (c *c08ctx) runFastForwardResponses(msgs int) bool {
 		}
 		if cu.Node.GetState() != _state.CatchingUp {
 			// adopted or fell back to babbling: put it back for the next attempt
+			if cu.Node.GetLastBlockIndex() >= 0 {
+				// A response that satisfies the acceptance rule was adopted (a validator the
+				// node knows declared a set made of itself: the documented limit of the C14
+				// repair, see DESIGN). From here on the victim runs on a forged state, so
+				// "it still makes progress with the honest majority" is no longer a claim
+				// C08 makes about it; only crashes are judged for the rest of the batch.
+				c.adoptedForgery = true
+				c.res.count("victim_adopted_a_rule_satisfying_forgery", 1)
+			}
 			cu.Node.VerifTransition(_state.CatchingUp)
 		}
 	}
@@ -717,5 +737,51 @@ func progressDiag(nw *Network, tx []byte) interface{} {
 		}
 		out = append(out, d)
 	}
+	return out
+}
+
+// consistentForgery builds a fast-forward response whose block is correctly
+// signed by the (known) Byzantine validator alone, over a validator set made
+// of itself only, and whose frame hash matches a frame with hostile content.
+func (c *c08ctx) consistentForgery() *bnet.FastForwardResponse {
+	g := c.gen
+	byzPeer := c.byz.peer()
+	f := g.frame()
+	f.Peers = []*peers.Peer{byzPeer}
+	switch g.rng.Intn(4) {
+	case 0:
+		f.Round = g.rng.Intn(100)
+	case 1:
+		f.PeerSets = map[int][]*peers.Peer{0: {byzPeer}}
+	}
+	var fh []byte
+	ok := true
+	gr := guard(func() {
+		var err error
+		fh, err = f.Hash()
+		if err != nil {
+			ok = false
+		}
+	})
+	if gr.panicked || !ok {
+		return nil
+	}
+	b := hg.NewBlock(1+g.rng.Intn(1000), f.Round, fh, f.Peers, g.txs(), nil, int64(g.num()))
+	if b == nil {
+		return nil
+	}
+	if g.rng.Intn(3) == 0 {
+		b.Body.InternalTransactionReceipts = g.block().Body.InternalTransactionReceipts
+	}
+	sig, err := b.Sign(c.byz.Key)
+	if err != nil {
+		return nil
+	}
+	b.SetSignature(sig)
+	out := &bnet.FastForwardResponse{FromID: c.byz.ID, Snapshot: g.bytes()}
+	if wireCopy(b, &out.Block) != nil {
+		return nil
+	}
+	out.Frame = f
 	return out
 }
